@@ -32,7 +32,7 @@ PROBES = ['frozen_copy_of_prefetching_pipeline', 'iterator_created_before_anothe
           'frozen_copy_of_live_dataset', 'one_generator_shared_by_stages',
           'adversary_step_inside_an_epoch', 'prefetch_pool_variant_ran',
           'prefetch_single_variant_ran', 'random_stage_below_other_stages',
-          'refused_request_between_epochs']
+          'refused_request_between_epochs', 'copy_refused_by_user_source']
 BUDGET = {
     'quick': {'families': 5000, 'wall_cap': 420, 'shrink_s': 12},
     'thorough': {'families': 50000, 'wall_cap': 5400, 'shrink_s': 30},
@@ -272,6 +272,14 @@ def gen(rng, tier, index):
             and rng.random() < 0.5 and not any(s['op'] == 'apply' for s in desc['stages']):
         # one generator object handed to every random stage of the build
         desc['shared_rng'] = rng.randrange(1 << 16)
+    nocopy = False
+    if desc['source']['kind'] == 'list' and rng.random() < 0.12 and \
+            not any(s['op'] in ('apply', 'tile') for s in desc['stages']):
+        # the source is a user-written dataset without copy(): every request for a
+        # copy is refused, and a refusal must not draw anything
+        d2 = dict(desc, source=dict(desc['source'], kind='user_nocopy'))
+        if pargen.abs_eval(d2) is not None:
+            desc, nocopy = d2, True
     epochs = rng.choice([2, 2, 3])
     per_epoch = any(s['op'] in RANDOM_OPS for s in desc['stages'])
     variants = ['A', 'B', 'C']
@@ -286,6 +294,8 @@ def gen(rng, tier, index):
     variants.append('P1')
     if a.sized and a.findexable:
         variants.append('Pw')
+    if nocopy:
+        variants = ['A', 'B']
     upper = desc['source']['n'] * 2 + 8
     cases = []
     for j in range(3):
@@ -301,14 +311,15 @@ def gen(rng, tier, index):
             ops.insert(rng.randrange(0, len(ops) + 1),
                        rng.choice([['reseed', rng.randrange(1 << 16)],
                                    ['advance', rng.randrange(1, 6)]]))
-        if rng.random() < 0.3 and not any(s_['op'] == 'apply' for s_ in desc['stages']):
+        if (nocopy or rng.random() < 0.3) and not any(s_['op'] == 'apply' for s_ in desc['stages']):
             # (a lazy apply stage runs its function - which may draw - for every
             # request, also for one that is refused in the end: not generated)
             # requests the pipeline refuses (items() without keys, an absent key,
             # an index far outside, len() of an unsized pipeline), made on one of
             # the plain variants between its iterations: a refusal draws nothing
             for _ in range(rng.randrange(1, 3)):
-                ops.insert(rng.randrange(0, len(ops) + 1), ['refused', rng.choice(['B', 'C'])])
+                ops.insert(rng.randrange(0, len(ops) + 1),
+                           ['refused', 'B' if nocopy else rng.choice(['B', 'C'])])
         cases.append({'desc': desc, 'epochs': epochs, 'variants': variants, 'pf': pf,
                       'ops': ops, 'sched_seed': rng.randrange(1 << 30),
                       'gseed': rng.randrange(1 << 16)})
@@ -454,7 +465,7 @@ def run(case):
                     ds = base.prefetch(case['pf']['w'], case['pf']['bw'])
                 vs[name] = _Variant(name, ds, E)
             base = W.build(desc)
-            msg = compare_copy(base)
+            msg = compare_copy(base) if desc['source']['kind'] != 'user_nocopy' else None
             if msg:
                 violations.append(hist.viol(
                     'copy_not_faithful', 'copy_not_faithful:' + msg.split('.copy()')[0]
@@ -490,7 +501,12 @@ def run(case):
                         refusals = 0
                         reqs = [lambda d: d['__no_such_key__'], lambda d: d[10 ** 9],
                                 lambda d: len(d)]
-                        if desc['source']['kind'] == 'list':
+                        if desc['source']['kind'] == 'user_nocopy':
+                            # no copy(): freezing and everything built on it is refused
+                            reqs += [lambda d: d.copy(freeze=True), lambda d: d.copy(),
+                                     lambda d: next(iter(d.catch()))]
+                            probes['copy_refused_by_user_source'] = 1
+                        if desc['source']['kind'] in ('list', 'user_nocopy'):
                             # nothing in the pipeline has keys: items() is refused
                             # before anything is delivered
                             reqs.insert(0, lambda d: next(iter(d.items())))
